@@ -12,7 +12,7 @@ PROPS = ["theories/Props/C02.v", "theories/Inst/C02i.v"]
 def run(ctx):
     prep = T.prepare(ctx)
     tlschema.write_schema_v()
-    pr = C.coq_props(PROPS)
+    pr = C.coq_props(PROPS, slow=["theories/Inst/C02x.v"], timeout=3000)
     C.coq_obligation_violations(ctx, pr, "C02")
     model = T.run_model(ctx, prep, with_spec=True)
     ids = T.schema_ids()
